@@ -1397,3 +1397,54 @@ func builtinStatusRules(c *Ctx, prop string) {
 		c.verdict(rule, key, pos, problems, fmt.Sprintf("status %d%s", w.code, map[bool]string{true: " with " + strings.TrimSpace(w.header), false: ""}[w.header != ""]))
 	}
 }
+
+// httpGetHeaderRules folds ws.httpGetHeader, through which HTTPUpgrader reads
+// every request header: like textproto.MIMEHeader.Get it returns the first
+// value of the field as it is, or "" - never something assembled from several
+// lines (two 11-character Sec-WebSocket-Key lines are not a 24-character key).
+func httpGetHeaderRules(c *Ctx, prop string) {
+	rule := prop + ".http-get-header"
+	c.R.Rule(rule, 1, "httpGetHeader returns the first value of the field unchanged, or the empty string when there is none")
+	f := c.fn(rule, ws, "httpGetHeader")
+	if f == nil {
+		return
+	}
+	m := c.machine()
+	m.OpaqueOK = true
+	n := 0
+	m.MapLookup = func(mm *fold.Machine, mp, key fold.Val, commaOk bool) (fold.Val, bool) {
+		if n == 0 {
+			return fold.Nil{}, true
+		}
+		el := make([]fold.Val, n)
+		for i := range el {
+			el[i] = fold.SymSeq{Name: fmt.Sprintf("value%d", i), Len: fold.Int{Lo: 0, Hi: 1 << 20, Name: fmt.Sprintf("len(value%d)", i)}, IsStr: true}
+		}
+		return fold.SliceV{O: mm.NewObj("values", fold.Arr{E: el}), Len: int64(n), Cap: int64(n)}, true
+	}
+	var problems []string
+	paths := m.Explore(f, func(mm *fold.Machine) []fold.Val {
+		n = mm.Choose("values", 4)
+		var h fold.Val = fold.Sym{Name: "header-map", NonNil: true}
+		if mm.Choose("nilmap", 2) == 1 {
+			h, n = fold.Nil{}, 0
+		}
+		return []fold.Val{h, fold.SymSeq{Name: "key", Len: fold.Range(1, 64), IsStr: true}}
+	}, func(mm *fold.Machine, p *fold.Path) {
+		got := fold.Show(p.Ret)
+		want := `""`
+		if n > 0 {
+			want = "value0"
+		}
+		if got != want {
+			problems = append(problems, fmt.Sprintf("with %d values for the field httpGetHeader returns %s, want %s: a value put together from several header lines passes checks none of the lines passes", n, got, want))
+		}
+	})
+	for _, p := range paths {
+		if p.Abort != "" || p.Panic {
+			problems = append(problems, "undecided: "+p.Abort+panicNote(p))
+		}
+	}
+	c.R.AddCells(len(paths))
+	c.verdict(rule, rule+"/httpGetHeader", c.P.FuncPos(f), uniq(problems), fmt.Sprintf("%d paths: nil map, 0-3 values", len(paths)))
+}
